@@ -278,7 +278,7 @@ func runC15(c *Ctx) {
 				}
 				paired := (lc == "") == (dc == "") && (lc == "" || lc == "-"+dc || lc == "-("+dc+")" || strings.TrimPrefix(lc, "-") == dc)
 				c.Check(paired, "C15.leafcount", fnName(gr), fmt.Sprintf("LeafCount-d paired with DelCount+d, meta=%v", meta), P.Pos(gr.Pos()), fmt.Sprintf("LeafCount %s DelCount %s", lc, dc))
-				if meta {
+				{
 					perLeaf := false
 					for j := range p.Trace {
 						ev := &p.Trace[j]
@@ -288,7 +288,9 @@ func runC15(c *Ctx) {
 							}
 						}
 					}
-					c.Check(lc == "" || perLeaf, "C15.leafcount", fnName(gr), "metadata leaves are not subtracted from LeafCount (they were never added to it)", P.Pos(gr.Pos()),
+					// whatever the delete path starts with (a glob at the top spans both subtrees), the amount is
+					// decided leaf by leaf
+					c.Check(lc == "" || perLeaf, "C15.leafcount", fnName(gr), fmt.Sprintf("metadata leaves are not subtracted from LeafCount (they were never added to it), delete path under the metadata root=%v", meta), P.Pos(gr.Pos()),
 						fmt.Sprintf("LeafCount %s on a metadata delete; delta is a per-leaf counter incremented only for non-metadata leaves=%v; path: %s", lc, perLeaf, p.String()))
 				}
 			}
